@@ -87,7 +87,7 @@ func c15Oracle(e *gen.Expr, only string) (out []mismatch, runs int64, outcomes [
 func init() { checks["C15"] = c15 }
 
 func c15(r *report.Run) {
-	slices := []*slice{sliceControl(), sliceScalar(), sliceAccess(), sliceLoops(), sliceNamed(), sliceNestType()}
+	slices := []*slice{sliceControl(), sliceScalar(), sliceAccess(), sliceLoops(), sliceNamed(), sliceNestType(), sliceAliases()}
 	runSlices(r, slices, func(sl *slice, e *gen.Expr, order int64) (int64, []string) {
 		ms, runs, outs := c15Oracle(e, "")
 		for _, m := range ms {
